@@ -7,7 +7,7 @@
    (harness/src/bin/c19.rs, Capi/CapiCheck.v). *)
 From Coq Require Import List NArith Bool.
 From Coq Require Import String.
-From YV Require Import Gen.CapiEffects Capi.LastError Capi.Flags Capi.Values Capi.LastErrorProofs.
+From YV Require Import Gen.CapiEffects Capi.LastError Capi.Flags Capi.Values Capi.Pending Capi.LastErrorProofs.
 Import ListNotations.
 Local Open Scope N_scope.
 
@@ -99,6 +99,30 @@ Theorem metadata_variants_tagged : forall v tag mem payload,
   In (v, tag, payload) expected_meta /\ member_of_tag tag = Some mem.
 Proof. exact meta_arms_lemma. Qed.
 Print Assumptions metadata_variants_tagged.
+
+(* pending per-scan inputs: by the operations the wrappers perform on the stored
+   module data (generated table), yrx_scanner_scan and yrx_scanner_scan_file hand
+   it to the module and drain it, the block API does neither; hence after any
+   whole-buffer scanning call nothing is pending, and for every history a scan
+   that follows another one without a set_module_data in between sees no data *)
+Theorem scan_consumes_module_data :
+  pending_table_ok = true /\
+  (forall s k, whole_buffer k = true -> p_data (scan_next s k) = None) /\
+  (forall h1 k1 h2 k2 s,
+     whole_buffer k1 = true -> whole_buffer k2 = true ->
+     forallb (fun st => negb (sets_data st)) h2 = true ->
+     snd (fst (scan_obs (prun (scan_next (prun s h1) k1) h2) k2)) = 0%N).
+Proof.
+  split; [exact pending_table_ok_now|]. split; [exact scan_consumes_data_lemma|].
+  intros. now apply no_stale_data_lemma.
+Qed.
+Print Assumptions scan_consumes_module_data.
+
+Example pending_nonvacuous :
+  preplay (pinit 0%N) [PSetGlob 5; PSetData 1 true; PSetOut 7 true; PScanStep KScanFile false 1 7 5;
+                       PScanStep KScan false 0 0 5; PSetData 2 true; PScanStep KScanBlock false 0 0 5;
+                       PSetData 1 false; PScanStep KScan true 0 0 0] = true.
+Proof. vm_compute. reflexivity. Qed.
 
 (* non-vacuity: an admissible two-thread history in which thread 0 fails to
    compile, thread 1 succeeds, thread 0 reads its message *)
